@@ -181,7 +181,7 @@ ZipBaseOf(vfs, hs) ==
 (* stat/open/list consulted something outside the root, rel = an archive-internal relative   *)
 (* path reached the operating system.                                                        *)
 Outcome(h, route, resp, lsel, tainted, rel) ==
-    [h |-> h, route |-> route, resp |-> resp, lsel |-> lsel, tainted |-> tainted, rel |-> rel, lazy |-> FALSE]
+    [h |-> h, route |-> route, resp |-> resp, lsel |-> lsel, tainted |-> tainted, rel |-> rel]
 
 Remove(list, x) == SelectSeq(list, LAMBDA y : y # x)
 Range(f) == {f[i] : i \in DOMAIN f}
@@ -192,13 +192,6 @@ MaildirMsgResp(s) == IF s.k = "none" THEN "noreply"                 \* NoSuchMai
 MboxMsgResp(s)    == IF s.k = "none" THEN "noreply"
                      ELSE IF s.k = "dir" THEN "ioerror"             \* open(.., "rb+") on a directory
                      ELSE IF s.f = "mbox" THEN "ok" ELSE "noreply"  \* StopIteration: no such message
-
-\* DirHandler.prep_entries resolves every child through the whole handler chain under the selector
-\* base + "/" + name: if one child selector does not pass the filter (the directory was asked for as
-\* "/k/." or "/k/"), FileNotFound escapes and the whole listing is answered as not-found
-DirResp(d, names) ==
-    LET base == IF d = <<"/">> THEN <<>> ELSE d
-    IN IF \E n \in names : ~IsSecure(base \o <<"/">> \o n) THEN "notfound" ELSE "ok"
 
 RECURSIVE Dispatch(_, _, _, _)
 Dispatch(d, list, vfs, all) ==
@@ -258,16 +251,15 @@ Dispatch(d, list, vfs, all) ==
            [] h \in {"MaildirFolderHandler", "MBoxFolderHandler", "PYGHandler"} ->
                   Outcome(h, h, IF vfs = "real" THEN "ok" ELSE "any", d, used, vfs # "real")
            [] h = "ExecHandler" -> Outcome(h, h, "any", d, used, vfs # "real")
-           [] h \in {"UMNDirHandler", "DirHandler"} ->
-                  \* lazy: the failure happens in prepare(), which a Gopher+ "!" request never calls
-                  [Outcome(h, h, DirResp(d, IF vfs = "real" THEN Children(s0.at) ELSE ZipChildren(s0.at)), d, used, FALSE)
-                     EXCEPT !.lazy = TRUE]
+           \* (a directory listing leaves out a child whose selector the filter rejects - "/k/." makes
+           \*  "/k/./g" - since the fix for C12; the listing itself is answered)
            [] OTHER -> Outcome(h, h, "ok", d, used, FALSE)
 
 HandlerList(hl) == IF hl = "full" THEN FullList ELSE DefaultList
 Serve(d, hl) == Dispatch(d, HandlerList(hl), "real", HandlerList(hl))
-\* response class per frame: Gopher+ item information ("!") asks for the entry only - no prepare(), no write()
-FrameResp(fr, o) == IF fr = "GPI" /\ o.lazy THEN "ok" ELSE o.resp
+\* response class per frame (today the same for every frame; Gopher+ "!" never calls prepare()/write(),
+\* which matters only for handlers whose failures are lazy - none in this model)
+FrameResp(fr, o) == o.resp
 
 ---------------------------------------------------------------------------------
 (* The design argument, clause by clause (evaluated by TLC for every enumerated selector)   *)
